@@ -115,6 +115,10 @@ def r1_table(ctx):
             ctx.obligation(ok)
             (ctx.ok if ok else ctx.violation)('C03.R1', 'C03.R1/compute_derivative/arm-present:%s' % v, fn.path, fn.site(), None, cfg)
         # deriv_list maps deriv over the list with the same c
+        if ctx.crate(cfg).fn(RM + 'deriv_list') is None:
+            # no such helper (any more): the arms above then had to show the element-wise derivative themselves
+            ctx.ok('C03.R1', 'C03.R1/deriv_list/absent-arms-map-in-place', None, None, None, cfg)
+            continue
         an = analyse_arms(ctx, cfg, RM + 'deriv_list')
         for o in an.rets:
             t = an.ip.to_term(o.state, o.value)
